@@ -116,7 +116,9 @@ class C06(object):
     required_counters = ('flow.judged', 'inc.judged', 'def.judged', 'insitu.addcashflow.post_evaluated',
                          'registered.ledgers_judged', 'registered.histories_with_repeated_flow',
                          'refused_registration.judged',
-                         'registered.flows_under_temporary_names_repeated_and_cancelled')
+                         'registered.flows_under_temporary_names_repeated_and_cancelled',
+                         'registered.processing_refused_then_repeated_after_defining_the_variable',
+                         'history.returned_name_list_edited_in_place_before_registration')
 
     def n_cases(self, tier):
         return (300 if tier == 'quick' else 30000) + 1
@@ -142,9 +144,17 @@ class C06(object):
                     r2['inc_src'], r2['inc_dst'] = not r2['inc_src'], not r2['inc_dst']
                     regs.append(r2)                            # the same flow again with the other income flags
             rng.shuffle(regs)
-            return {'kind': 'registered', 'regs': regs, 'vseed': rng.getrandbits(32), 'twice': False}
+            late = (idx // 6) % 3 == 1
+            if late:
+                # the FIRST registered flow names an amount variable that does not exist yet ("only needs to exist when
+                # registered cash flows are processed"): processing is refused before anything is booked, the caller
+                # defines the variable and processes the registered flows again
+                regs[0]['var'] = 'Z'
+            return {'kind': 'registered', 'regs': regs, 'vseed': rng.getrandbits(32), 'twice': False, 'late_var': late}
         return {'kind': 'history', 'ops': gen_history(rng), 'vseed': rng.getrandbits(32),
-                'host': rng.choice(['Sector', 'Sector', 'Household'])}
+                'host': rng.choice(['Sector', 'Sector', 'Household']),
+                # the caller decorates, in place, the list of names it was handed (for a report) before every registration
+                'decorate_returned_names': idx % 6 == 1}
 
     def run_registered(self, case):
         from sfc_models.models import Model, Country
@@ -178,6 +188,14 @@ class C06(object):
                 mod._GenerateFullSectorCodes()
                 mod._GenerateEquations()
                 mod._FixAliases()
+                if case.get('late_var'):
+                    try:
+                        mod._GenerateRegisteredCashFlows()
+                        rec.violate('flow_with_undefined_amount_variable_not_refused', {'regs': case['regs'][:1]})
+                    except KeyError:
+                        rec.count('registered.processing_refused_then_repeated_after_defining_the_variable')
+                    for c, sec in S.items():
+                        sec.AddVariable('Z', 'amount Z, defined late', '3.0')
                 mod._GenerateRegisteredCashFlows()
         except Exception as e:
             rec.violate('call_raised', {'err': repr(e), 'regs': case['regs']})
@@ -186,7 +204,7 @@ class C06(object):
         for trial in range(3):
             env = {'LAG_F': float(rng.randint(1, 64))}
             for c in S:
-                for v in ('X', 'Y'):
+                for v in ('X', 'Y', 'Z'):
                     env['%s__%s' % (c, v)] = float(rng.randint(1, 64))
             for c, sec in S.items():
                 expF, expI = env['LAG_F'], 0.0
@@ -207,7 +225,7 @@ class C06(object):
                         expI += cf_ * env[nm_]
                 F, INC = sec.EquationBlock['F'].RHS(), sec.EquationBlock['INC'].RHS()
                 local = dict(env)
-                local['X'], local['Y'] = env[c + '__X'], env[c + '__Y']
+                local['X'], local['Y'], local['Z'] = env[c + '__X'], env[c + '__Y'], env[c + '__Z']
                 try:
                     gotF, gotI = _eval(F, local), _eval(INC if INC.strip() else '0.0', local)
                 except Exception as e:
@@ -320,6 +338,11 @@ class C06(object):
                     continue
                 # flow
                 eqn = op['eqn'] if op['core'] not in protected else None
+                if case.get('decorate_returned_names'):
+                    handed = sec.GetVariables()
+                    for i_ in range(len(handed)):
+                        handed[i_] = 'S.' + handed[i_]
+                    rec.count('history.returned_name_list_edited_in_place_before_registration')
                 sec.AddCashFlow(op['term'], eqn=eqn, desc=op['desc'], is_income=op['is_income'])
             except Exception as e:
                 rec.violate('call_raised', {'at': j, 'op': op, 'err': repr(e)})
